@@ -571,6 +571,23 @@ def check_start_graph(name, col: Collector) -> bool:
     return ok
 
 
+def check_start_graph_type(typ: str, col: Collector) -> bool:
+    """start_graph of a grammar whose start symbol has the given type (a string of node-label names, repeats allowed):
+    one edge labelled by the start symbol on len(typ) pairwise different nodes with the labels of the type, in order;
+    no other node; no externals."""
+    s = EdgeLabel("S", [NodeLabel(c) for c in typ], is_nonterminal=True)
+    g = start_graph(HRG(s))
+    es, ns = list(g.edges()), list(g.nodes())
+    ok = (len(es) == 1 and es[0].label == s and [n.label.name for n in es[0].nodes] == list(typ)
+          and len({n.id for n in es[0].nodes}) == len(typ) and len(ns) == len(typ)
+          and {n.id for n in ns} == {n.id for n in es[0].nodes} and len(g.ext) == 0)
+    if not ok:
+        col.add("start_graph", f"start_graph:type-{typ or 'empty'}",
+                f"start_graph for a start symbol of type ({','.join(typ)}): edges {[(e.label.name, [str(n.id) for n in e.nodes]) for e in es]} "
+                f"nodes {[(str(n.id), n.label.name) for n in ns]}", {"kind": "start_graph_type", "type": typ})
+    return ok
+
+
 # ----------------------------------------------------------------------------------------
 # 3. FGGDerivation.derive
 # ----------------------------------------------------------------------------------------
@@ -687,7 +704,8 @@ def n_choices(rec, t) -> int:
 
 # ----------------------------------------------------------------------------------------
 CHECKERS = {"single": check_single, "confluence": check_confluence, "derive": check_derive,
-            "start_graph": lambda c, col: check_start_graph(c["hrg"], col)}
+            "start_graph": lambda c, col: check_start_graph(c["hrg"], col),
+            "start_graph_type": lambda c, col: check_start_graph_type(c["type"], col)}
 
 
 def run_bounded(ctx: Ctx) -> Report:
@@ -718,6 +736,8 @@ def run_bounded(ctx: Ctx) -> Report:
         budget = 4 if not ctx.thorough else 6
         ccases = []
         n_orders = 0
+        for typ in ("", "A", "AB", "AA", "ABA", "AAA", "ABBA"):      # start symbols of arity > 0, repeated node labels
+            check_start_graph_type(typ, col)
         for name, rec in HRGS.items():
             check_start_graph(name, col)
             for t in trees(rec, rec["start"], budget):
